@@ -297,8 +297,8 @@ structure RawRows where
   paging : Option Bytes
   deriving Repr
 
-/-- `RawMetadataAndRawRows::deserialize`. -/
-def deserRawRows (f : Features) : M RawRows := do
+/-- `RawMetadataAndRawRows::deserialize`: the reads on the `FrameSlice`. -/
+def deserRawRowsHdr (f : Features) : M RawRows := do
   let flags ← tag "rows.flags" readInt
   let globalSpec := flagSet flags 1
   let hasMore := flagSet flags 2
@@ -311,6 +311,13 @@ def deserRawRows (f : Features) : M RawRows := do
     let paging ← optRead (hasMore) (tag "rows.paging" readBytes)
     -- `raw_metadata_and_rows: frame.to_bytes()` is the rest of the buffer: it stays in the reader state
     pure ⟨colCount, globalSpec, presence, paging⟩
+
+/-- `RawMetadataAndRawRows::deserialize`, ending with `raw_metadata_and_rows: frame.to_bytes()` (result.rs:847):
+`FrameSlice::to_bytes` is `original_frame.slice_ref(frame_subslice)`. -/
+def deserRawRows (f : Features) : M RawRows := do
+  let r ← tracked (deserRawRowsHdr f)
+  sliceRef r.2
+  pure r.1
 
 /-- Which metadata a Rows result ends up with. -/
 inductive MetaSource where
@@ -349,9 +356,12 @@ def metaFor (r : RawRows) (cached : Option ResultMeta) : M (MetaSource × Result
 /-- `RawMetadataAndRawRows::deserialize_metadata` (`cached` = the metadata the caller passed, if any). -/
 def deserMetadata (r : RawRows) (cached : Option ResultMeta) : M DeserRows := do
   let sm ← metaFor r cached
-  let rc ← tag "rowscount" readIntLength
+  -- `FrameSlice::new(&row_count_and_raw_rows)`, `read_int_length`, then `raw_rows: frame_slice.to_bytes()`
+  -- (result.rs:955; `to_bytes` = `slice_ref` of what is left)
+  let rc ← tracked (tag "rowscount" readIntLength)
+  sliceRef rc.2
   let raw ← takeRest
-  pure ⟨sm.1, sm.2, rc, raw⟩
+  pure ⟨sm.1, sm.2, rc.1, raw⟩
 
 /-- `read_cql_bytes` over the cells of one row (`RawRowIterator::next` skips the row this way, `ColumnIterator` then
 re-reads the same cells): `Except (column index, kind)`. -/
